@@ -323,3 +323,110 @@ def kt_ragged_insert_column(w0: int, w1: int, r1: int, extra: int, x: int, qx: i
     else:
         exp = ragged_ref(w0, w1, r1, qx - 1, qy)
     return judge(t, exp, (ncols if ncols > x else x) + 1, 1 + r1, qx, qy)
+
+
+# ----------------------------------------------------------------- bulk set (Table.set_values / set_cells)
+BULK_CELLS = os.environ.get("VERIF_BULK", "values") == "cells"
+
+
+TPL = tuple(int(v) for v in os.environ.get("VERIF_TPL", "1,1,1,1").split(","))  # run lengths of the template, concrete per process
+
+
+def kt_bulk_set(x: int, y: int, gap: bool, qx: int, qy: int) -> bool:
+    """
+    pre: 0 <= x <= 2 and 0 <= y <= 4 and 0 <= qx <= 4 and 0 <= qy <= 7
+    post: _
+    """
+    r0, r1, c0, c1 = TPL
+    # set_values / set_cells with the matrix [[7, 8], [5] or [] (an empty sub-list leaves its row alone), [6]]
+    # at (x, y): each sub-list lands in ITS row, every other cell keeps its value
+    t = mktab(r0, r1, c0, c1, True, 0)
+    if BULK_CELLS:
+        m = [[IntCell(7), IntCell(8)], [] if gap else [IntCell(5)], [IntCell(6)]]
+        t.set_cells(m, (x, y))
+    else:
+        m = [[7, 8], [] if gap else [5], [6]]
+        t.set_values(m, (x, y))
+    if qy == y and qx == x:
+        exp = 7
+    elif qy == y and qx == x + 1:
+        exp = 8
+    elif qy == y + 1 and qx == x and not gap:
+        exp = 5
+    elif qy == y + 2 and qx == x:
+        exp = 6
+    else:
+        exp = ref(r0, r1, c0, c1, qx, qy)
+    w, h = c0 + c1, r0 + r1
+    return judge(t, exp, max(w, x + 2), max(h, y + 3), qx, qy)
+
+
+# ----------------------------------------------------------------- tables without rows or without columns
+def _empty_judge(t, exp_fn, ew, eh, qx, qy):
+    n = t._n
+    exp = exp_fn(qx, qy)
+    f = wrap(n)
+    ok = t.get_value((qx, qy)) == exp and x_value(n, qx, qy) == exp
+    ok = ok and t.width == ew and t.height == eh and x_total(n, "row") == eh and x_total(n, "column") == ew
+    ok = ok and t._tmap == f._tmap and t._cmap == f._cmap and structure_ok(n)
+    return done(ok)
+
+
+EOP = int(os.environ.get("VERIF_EOP", "0"))  # which first write (concrete per process)
+
+
+def kt_empty_first_write(x: int, y: int, ca: int, rr: int, qx: int, qy: int) -> bool:
+    """
+    pre: 0 <= x <= 3 and 0 <= y <= 3 and 0 <= ca <= 2 and 1 <= rr <= 2 and 0 <= qx <= 5 and 0 <= qy <= 5
+    post: _
+    """
+    op = EOP
+    # a table created without width/height (no row, no column declaration): the first write declares the
+    # columns it needs, in front of the rows; size, maps and values agree with the XML read afresh
+    t = KTable()
+    if op == 0:
+        t.set_value((x, y), 9)
+        return _empty_judge(t, lambda a, b: 9 if (a == x and b == y) else None, x + 1, y + 1, qx, qy)
+    if op == 1:
+        t.set_cell((x, y), IntCell(9, rr))
+        return _empty_judge(t, lambda a, b: 9 if (b == y and x <= a < x + rr) else None, x + rr, y + 1, qx, qy)
+    row = KRow()
+    if ca > 0:
+        row.append_cell(IntCell(8, ca), clone=False)
+    if rr > 1:
+        row.repeated = rr
+    if op == 2:
+        t.append_row(row)  # possibly a row without cells
+        t.set_value((x, y), 9)
+        return _empty_judge(t, lambda a, b: 9 if (a == x and b == y) else (8 if (b < rr and a < ca) else None),
+                            max(ca, x + 1, 1), max(rr, y + 1), qx, qy)
+    t.set_row(y, row)
+    t.append_column(IntColumn(1))
+    w = max(ca, 1) + 1
+    return _empty_judge(t, lambda a, b: 8 if (y <= b < y + rr and a < ca) else None, w, y + rr, qx, qy)
+
+
+def kt_no_columns(r0: int, r1: int, op: int, x: int, qx: int, qy: int) -> bool:
+    """
+    pre: 1 <= r0 <= 2 and 1 <= r1 <= 2 and 0 <= op <= 3 and 0 <= x <= 2 and 0 <= qx <= 4 and 0 <= qy <= 4
+    post: _
+    """
+    # a table that has rows but no column left (every column deleted): whatever adds a column again puts
+    # the declaration in front of the rows
+    t = mktab(r0, r1, 1, 1, True, 0)
+    t.delete_column(0)
+    t.delete_column(0)
+    h = r0 + r1
+    if t.width != 0 or t.height != h:
+        return done(False)
+    if op == 0:
+        t.set_value((x, 0), 9)
+        return _empty_judge(t, lambda a, b: 9 if (a == x and b == 0) else None, x + 1, h, qx, qy)
+    if op == 1:
+        t.append_column(IntColumn(1))
+        return _empty_judge(t, lambda a, b: None, 1, h, qx, qy)
+    if op == 2:
+        t.insert_column(x, IntColumn(1))
+        return _empty_judge(t, lambda a, b: None, x + 1, h, qx, qy)
+    t.set_column(x, IntColumn(1))
+    return _empty_judge(t, lambda a, b: None, x + 1, h, qx, qy)
